@@ -618,6 +618,8 @@ func (c10) Run(t *tape.Tape, cfg sim.Config) (res sim.Result) {
 	notifyCount := map[int]*int{} // by instantiate op serial
 	modNotify := map[int]*int{}   // by module id
 	var panics []string
+	moduleCloser := map[api.Module]int{}  // module -> task id + 1 of the task inside a module-level Close of it
+	var stillRegisteredAtNotify []string // names found still registered while their close notification ran
 	closedCompiledBins := map[int]int64{} // bin -> earliest call stamp of a compiled-handle close
 
 	type clientState struct {
@@ -670,9 +672,23 @@ func (c10) Run(t *tape.Tape, cfg sim.Config) (res sim.Result) {
 			switch p.kind {
 			case opInst:
 				cnt := new(int)
-				nctx := experimental.WithCloseNotifier(ctx, experimental.CloseNotifyFunc(func(context.Context, uint32) { *cnt++ }))
+				var self api.Module
+				selfName := p.name
+				nctx := experimental.WithCloseNotifier(ctx, experimental.CloseNotifyFunc(func(context.Context, uint32) {
+					*cnt++
+					// When the notification comes from a module-level Close issued by the task that is
+					// running now, the close is announced: the name must already be released (an observer
+					// reacting to the notification must be able to look up / re-instantiate the name).
+					// (Not checked under Runtime.Close: the store's lock is held by the closer there.)
+					if cur := simrt.Current(); cur != nil && self != nil && selfName != "" && moduleCloser[self] == cur.ID+1 {
+						if rt.Module(selfName) == self {
+							stillRegisteredAtNotify = append(stillRegisteredAtNotify, selfName)
+						}
+					}
+				}))
 				mod, err := rt.InstantiateModule(nctx, shared[p.bin], wazero.NewModuleConfig().WithName(p.name))
 				if err == nil {
+					self = mod
 					out.OK, out.Mod = true, idOf(mod)
 					cs.mods = append(cs.mods, mod)
 					modNotify[out.Mod] = cnt
@@ -701,6 +717,10 @@ func (c10) Run(t *tape.Tape, cfg sim.Config) (res sim.Result) {
 				out.Mod = idOf(rt.Module(p.name))
 			case opClose:
 				var err error
+				if cur := simrt.Current(); cur != nil {
+					moduleCloser[target] = cur.ID + 1
+					defer delete(moduleCloser, target)
+				}
 				if p.code == 0 {
 					err = target.Close(ctx)
 				} else {
@@ -795,6 +815,10 @@ func (c10) Run(t *tape.Tape, cfg sim.Config) (res sim.Result) {
 	}
 	if len(panics) > 0 {
 		res.Fail("panic-instead-of-error", "%s", panics[0])
+		return
+	}
+	if len(stillRegisteredAtNotify) > 0 {
+		res.Fail("notified-before-name-released", "the close notification of module %q ran (from its own Close call) while the name still resolved to the closed module", stillRegisteredAtNotify[0])
 		return
 	}
 	// final sequential probe (simulation inactive): goes into the history
